@@ -1066,3 +1066,58 @@ def rule_replacement_opened_first(ctx):
                 ctx.violated("SWAPSTREAM", key, f.where(line), "%s closes the file record's stream before the replacement stream has been opened: when that open fails the ids already issued on the file are left with a closed stream" % f.name)
     ctx.floor("SWAPSTREAM", 1, n, "(routines that replace the stream of a live file record)")
     return n
+
+
+def rule_end_removes_outstanding_ids(ctx):
+    """ENDDANGLE (C13): the per-file state of an interface keeps its objects in a tree, and ids for those objects are atoms whose
+    object pointer is the tree node (the routine that hands an id out both finds/inserts the node in the tree and registers it).
+    The routine that ends the interface for one file destroys the tree; ids that are still outstanding then point at freed or
+    recycled nodes.  It must therefore take those ids out of the atom table — in the destroy callback, with a search of the
+    group, or by destroying the group.  Trees whose destroyers only run at library shutdown next to HAdestroy_group, and the
+    clean-up of a tree the same routine is still building, are not instances."""
+    from .facts import kind, strip, render, int_name
+    prog = ctx.prog
+    assoc = {}
+    for f in prog.lib_funcs():
+        node_of = {}  # variable -> tree it is a node of
+        found = {}  # variable holding a tbbtdfind result -> tree
+        for _b, _i, _s, x in f.nodes(True):
+            if x[0] == "call" and x[1] == "tbbtdins" and len(x[3]) > 1 and mem_field(x[3][0]) and kind(strip(x[3][1])) == "var":
+                node_of[strip(x[3][1])[1]] = mem_field(x[3][0])
+            elif x[0] == "asg" and x[1] == "=" and kind(strip(x[2])) == "var":
+                r = strip(x[3])
+                if kind(r) == "call" and r[1] == "tbbtdfind" and r[3] and mem_field(r[3][0]):
+                    found[strip(x[2])[1]] = mem_field(r[3][0])
+                elif kind(r) == "deref" and kind(strip(r[1])) == "var" and strip(r[1])[1] in found:
+                    node_of[strip(x[2])[1]] = found[strip(r[1])[1]]
+        for _b, _i, _s, c in f.calls():
+            if c[1] == "HAregister_atom" and len(c[3]) > 1 and kind(strip(c[3][1])) == "var" and strip(c[3][1])[1] in node_of:
+                assoc.setdefault(node_of[strip(c[3][1])[1]], set()).add(int_name(c[3][0]) or render(c[3][0]))
+    n = 0
+    for f in prog.lib_funcs():
+        names = {c[1] for _b, _i, _s, c in f.calls()}
+        if names & {"HAregister_atom", "HAinit_group"}:
+            continue  # still building: clean-up of a tree no id was handed out for yet
+        for _b, _i, s, c in f.calls():
+            if c[1] != "tbbtdfree" or not c[3] or mem_field(c[3][0]) not in assoc:
+                continue
+            tree = mem_field(c[3][0])
+            cb = strip(c[3][1]) if len(c[3]) > 1 else None
+            cbn = cb[1] if kind(cb) in ("var", "fn") else (render(cb) if cb is not None else "")
+            cbf = prog.func(cbn, f.tu) if cbn else None
+            cb_calls = {k[1] for _b2, _i2, _s2, k in cbf.calls()} if cbf else set()
+            for g in sorted(assoc[tree]):
+                covered = ("HAremove_atom" in cb_calls) or ("HAsearch_atom" in names) or any(k[1] == "HAdestroy_group" and k[3] and (int_name(k[3][0]) or render(k[3][0])) == g for _b2, _i2, _s2, k in f.calls())
+                # a node destructor of an *enclosing* tree (called as a tbbtdfree callback itself) runs at shutdown
+                is_callback = any(k[1] == "tbbtdfree" and len(k[3]) > 1 and f.name in render(k[3][1]) for g2 in prog.lib_funcs() for _b2, _i2, _s2, k in g2.calls())
+                if is_callback:
+                    continue
+                n += 1
+                key = "ENDDANGLE:%s:%s:%s" % (f.name, tree[1], g)
+                if covered:
+                    ctx.holds("ENDDANGLE", key, f.where(s.get("l", f.line)), "%s takes the outstanding %s ids out of the atom table when it destroys %s" % (f.name, g, tree[1]), nontrivial=True)
+                else:
+                    ctx.violated("ENDDANGLE", key, f.where(s.get("l", f.line)), "%s destroys the tree `%s` whose nodes are registered as %s ids, and neither it nor its destroy callback %s() removes those ids: an id that is still open afterwards "
+                                 "points at a freed or recycled node" % (f.name, tree[1], g, cbn))
+    ctx.floor("ENDDANGLE", 3, n, "(per-file interface trees destroyed while their nodes are registered as ids)")
+    return n
